@@ -57,6 +57,22 @@ Theorem C04_encode_vframe : forall h rid ps body m,
 Proof. exact encode_vframe. Qed.
 Print Assumptions C04_encode_vframe.
 
+(* the reader's dispatch loop (connection.reader): however the stream is cut into reads, every frame
+   is dispatched exactly once, in order - executed when its id has a registered handler, reported as
+   unsupported otherwise (an unsupported id does not end the loop: what follows it in the same read
+   is still dispatched), no error *)
+Theorem C04_reader_events : forall reg fs chunks, Forall vframe fs -> concat chunks = concat fs ->
+  reader_run reg [] chunks [] = (map (dispatch1 reg) (map decode_ok fs), None).
+Proof. exact reader_events. Qed.
+Print Assumptions C04_reader_events.
+
+Theorem C04_reader_prompt : forall reg fs chunks rest, Forall vframe fs ->
+  concat chunks ++ rest = concat fs ->
+  reader_run reg [] chunks [] =
+    (map (dispatch1 reg) (map decode_ok (frames_within fs (length (concat chunks)))), None).
+Proof. exact reader_events_prompt. Qed.
+Print Assumptions C04_reader_prompt.
+
 (* non-vacuity: a 2013 heartbeat and a frame whose body is the two escaped bytes 7e 7d are valid
    frames; fed byte by byte, whole, and cut inside the escape pair they give the same two messages *)
 Definition ex_hb : list N := [126; 0; 2; 0; 0; 1; 35; 69; 103; 137; 1; 0; 1; 139; 126].
